@@ -30,6 +30,10 @@ type Case struct {
 		Key string `json:"key"`
 	} `json:"want"`
 	Seed int64 `json:"seed"`
+	// kind "bag": a bag written by the specification is presented as the state-init (for account id Addr)
+	Kind string `json:"kind"`
+	Boc  string `json:"boc"`
+	Addr string `json:"addr"`
 }
 
 var domains = []string{"example.com", "ton.app", "getgems.io", "a.b", "xn--e1afmkfd.xn--p1ai", "тон.рф", "sub.domain.example.org", "x"}
@@ -139,6 +143,18 @@ func concretise(cs *Case, r *rand.Rand, now int64) (*built, error) {
 
 	// ---- tamperings applied BEFORE signing (the signature covers what is presented)
 	t := cs.Tamper
+	if cs.Kind == "bag" {
+		// an honest proof in every other respect, made for the account id the generator names; the state-init text is replaced below
+		ab, err := hex.DecodeString(cs.Addr)
+		if err != nil || len(ab) != 32 {
+			return nil, fmt.Errorf("bag vector without an account id")
+		}
+		copy(s.addr.Address[:], ab)
+		for i := range s.chain {
+			s.chain[i].Addr = cs.Addr
+		}
+		t = "none"
+	}
 	switch t {
 	case "signer":
 		s.signKey, _ = keyFromSeed(randSeed(r))
@@ -256,6 +272,13 @@ func concretise(cs *Case, r *rand.Rand, now int64) (*built, error) {
 		}
 	}
 
+	if cs.Kind == "bag" {
+		bag, err := hex.DecodeString(cs.Boc)
+		if err != nil {
+			return nil, err
+		}
+		p.Proof.StateInit = base64.StdEncoding.EncodeToString(bag)
+	}
 	// ---- tamperings applied AFTER signing (the presented field differs from what was signed)
 	switch t {
 	case "sig_flip":
